@@ -84,7 +84,7 @@ func verifLemmaNoKeyNoLinks(w, r *IOCbor, e iface.IPFSLogEntry) (*jsonable.Entry
 //@ func NonceRefForEntry
 //@   requires validEntry(entry)
 //@   ensures fresh(result)
-//@   assumes [nonce-reference-is-a-function-of-the-formatted-values] bytes(result) == nonceRef(cidsOf(entry.(*entry.Entry).Next), bytes(entry.(*entry.Entry).Key), bytes(entry.(*entry.Entry).Payload), bytes(entry.(*entry.Entry).Clock.ID), entry.(*entry.Entry).Clock.Time, entry.(*entry.Entry).LogID, entry.(*entry.Entry).V)
+//@   assumes [nonce-reference-is-a-function-of-the-formatted-values] bytes(result) == nonceRef(cidsOf(entry.(*entry.Entry).Next), bytes(entry.(*entry.Entry).Payload), bytes(entry.(*entry.Entry).Clock.ID), entry.(*entry.Entry).Clock.Time, entry.(*entry.Entry).LogID, entry.(*entry.Entry).V)
 
 //@ func (*IOCbor).PreSign
 //@   requires validIO(i) && validEntry(entry)
@@ -92,7 +92,7 @@ func verifLemmaNoKeyNoLinks(w, r *IOCbor, e iface.IPFSLogEntry) (*jsonable.Entry
 //@   ensures [presign-does-not-touch-its-argument] err == nil ==> result0 == entry || fresh(result0)
 //@   ensures [presign-keeps-signed-fields] err == nil ==> sameEntryCore(result0, entry)
 //@   ensures [no-key-or-no-links-means-no-change] i.linkKey == nil || (len(entry.Next) == 0 && len(entry.Refs) == 0) ==> err == nil && result0 == entry
-//@   ensures [links-are-sealed-under-the-link-key] err == nil && i.linkKey != nil && (len(entry.Next) > 0 || len(entry.Refs) > 0) ==> hasEncLinks(result0) && (exists nonce bytes :: len(nonce) == 24 && nonce == nonceOf(nonceRef(cidsOf(result0.Next), bytes(result0.Key), bytes(result0.Payload), bytes(result0.Clock.ID), result0.Clock.Time, result0.LogID, result0.V)) && result0.AdditionalData["encrypted_links"] == b64enc(sealOf(ref(i.linkKey), mlinks(cidsOf(result0.Next), cidsOf(result0.Refs)), nonce)) && result0.AdditionalData["encrypted_links_nonce"] == b64enc(nonce))
+//@   ensures [links-are-sealed-under-the-link-key] err == nil && i.linkKey != nil && (len(entry.Next) > 0 || len(entry.Refs) > 0) ==> hasEncLinks(result0) && (exists nonce bytes :: len(nonce) == 24 && nonce == nonceOf(nonceRef(cidsOf(result0.Next), bytes(result0.Payload), bytes(result0.Clock.ID), result0.Clock.Time, result0.LogID, result0.V)) && result0.AdditionalData["encrypted_links"] == b64enc(sealOf(ref(i.linkKey), mlinks(cidsOf(result0.Next), cidsOf(result0.Refs)), nonce)) && result0.AdditionalData["encrypted_links_nonce"] == b64enc(nonce))
 
 //@ func (*IOCbor).Write
 //@   requires i != nil && ipfs != nil && i.constantIdentity == nil
